@@ -18,6 +18,7 @@ import time
 ROOT = os.path.dirname(os.path.dirname(os.path.abspath(__file__)))
 SPEC = os.path.join(ROOT, "spec")
 HARNESS = os.path.join(ROOT, "harness")
+HARNESS_NOFAST = os.path.join(ROOT, "harness-nofast")   # lexpr without fast-float-parsing (package vhn)
 WORKROOT = os.path.join(ROOT, "work")
 EVIDENCE = os.path.join(ROOT, "evidence")
 KNOWN = os.path.join(ROOT, "known_findings.jsonl")
@@ -51,11 +52,12 @@ def build_harness(package="vh", profile="release"):
     if profile == "release":
         cmd.append("--release")
     t0 = time.time()
-    p = subprocess.run(cmd, cwd=HARNESS, env=env, stdout=subprocess.PIPE, stderr=subprocess.STDOUT, text=True)
+    hdir = HARNESS_NOFAST if package == "vhn" else HARNESS
+    p = subprocess.run(cmd, cwd=hdir, env=env, stdout=subprocess.PIPE, stderr=subprocess.STDOUT, text=True)
     if p.returncode != 0:
         sys.stderr.write(p.stdout[-6000:])
         raise ToolError("cargo build of the harness failed (is /repo in a compiling state?)")
-    exe = os.path.join(HARNESS, "target", "release" if profile == "release" else "debug", package)
+    exe = os.path.join(hdir, "target", "release" if profile == "release" else "debug", package)
     log("harness %s/%s built in %.1fs" % (package, profile, time.time() - t0))
     _built[key] = exe
     return exe
